@@ -491,7 +491,7 @@ class MetaClass(object):
         self.storage = list()
         self.clazz = type(str(kind), (Class,), dict(__metaclass__=self))
         
-    def __call__(self, *args, **kwargs):
+    def __call__(self, /, *args, **kwargs):
         '''
         Create and return a new instance using the metaclass constructor.
         '''
@@ -574,7 +574,7 @@ class MetaClass(object):
         else:
             raise MetaException("Unknown type named '%s'" % type_name)
         
-    def new(self, *args, **kwargs):
+    def new(self, /, *args, **kwargs):
         '''
         Create and return a new instance.
         '''
@@ -1193,7 +1193,7 @@ class MetaModel(object):
         else:
             raise UnknownClassException(kind)
 
-    def new(self, kind, *args, **kwargs):
+    def new(self, kind, /, *args, **kwargs):
         '''
         Create and return a new instance in the metamodel of some *kind*.
         
